@@ -396,6 +396,37 @@ def _oniom_name(i, frags, tag):
     return f"oniom/{tag}/{i}/{m['low'].upper()}-{m['high']}/{s}/L{len(m['links'])}" + (f"+{len(frags) - 2}" if len(frags) > 2 else "")
 
 
+def h_relink_group(env, species, factor, staying, leaving, canary=False):
+    """AUXILIARY concrete shape (no solver role; scipy's align_vectors is numeric): a multi-atom cap is placed as a rigid copy
+    of its template, first atom on the broken bond at the requested fraction, template axis (ghost -> first atom) along the bond"""
+    import numpy as np
+    from symx import shim
+    from tangelo.problem_decomposition.oniom._helpers.helper_classes import Link
+    geom = [("C", (0.0, 0.0, 0.0)), ("C", (1.1, 0.9, -0.4)), ("H", (-0.7, 0.6, 0.9)), ("N", (2.0, -1.3, 0.8))]
+    with shim.concrete_mode():
+        link = Link(staying, leaving, factor, species)
+        out = link.relink(geom)
+        tmpl = [a for a in link.species if a[0].upper() != "X"]
+        ghost = np.array(link.species[0][1], dtype=float)
+    P = np.array([p for _, p in out], dtype=float)
+    T = np.array([t for _, t in tmpl], dtype=float)
+    s_, l_ = np.array(geom[staying][1]), np.array(geom[leaving][1])
+    want0 = s_ + factor * (l_ - s_)
+    if canary:
+        want0 = s_ + (1 - factor) * (l_ - s_)
+    env.check_true(float(np.abs(P[0] - want0).max()) < 1e-9, f"{species}: first atom sits at staying + factor*(leaving - staying)", detail=str(P[0] - want0))
+    env.check_same([e for e, _ in out], [e for e, _ in tmpl], "elements of the cap")
+    dP = np.linalg.norm(P[:, None, :] - P[None, :, :], axis=-1)
+    dT = np.linalg.norm(T[:, None, :] - T[None, :, :], axis=-1)
+    env.check_true(float(np.abs(dP - dT).max()) < 1e-9, f"{species}: the cap is a rigid copy of its template")
+    u_bond = (l_ - s_) / np.linalg.norm(l_ - s_)
+    u_tmpl = (T[0] - ghost) / np.linalg.norm(T[0] - ghost)
+    ax_out = (P - P[0]) @ u_bond
+    ax_tmpl = (T - T[0]) @ u_tmpl
+    env.check_true(float(np.abs(ax_out - ax_tmpl).max()) < 1e-8, f"{species}: template axis (ghost -> first atom) is aligned with the bond direction",
+                   detail=str(ax_out - ax_tmpl))
+
+
 def h_dmet_reorder(env, nested, canary=False):
     """DMET bookkeeping that is pure Python (no claim about DMET energies): nested lists of atom indices are turned into
     fragment sizes and the geometry is reordered so that the k-th fragment consists of exactly the listed atoms, in the
@@ -428,6 +459,10 @@ def shapes(tier, seed):
              [[2, 3, 1], [0]]]
     if thorough:
         perms += [[list(p[:2]), list(p[2:])] for p in _it.permutations(range(4))][::3]
+    for sp in ("CH3", "CF3", "NH2"):
+        for (st, lv, fac) in ((0, 1, 0.71), (1, 3, 1.0), (3, 1, 0.5)):
+            out.append(Shape(f"aux/relink_group/{sp}/{st}-{lv}/{fac}", h_relink_group, dict(species=sp, factor=fac, staying=st, leaving=lv)))
+    out.append(Shape("canary/aux/relink_group", h_relink_group, dict(species="CH3", factor=0.71, staying=0, leaving=1, canary=True), canary=True))
     for i, nested in enumerate(perms):
         nm = "_".join("".join(map(str, f)) for f in nested)
         out.append(Shape(f"dmet/reorder/{i}_{nm}", h_dmet_reorder, dict(nested=nested)))
